@@ -455,16 +455,31 @@ const (
 )
 
 func booleanPrecedence(expression cypher.Expression) (int, bool) {
+	var (
+		operands   []cypher.Expression
+		precedence int
+	)
+
 	switch typedExpression := expression.(type) {
 	case *cypher.Disjunction:
-		return precedenceOr, len(typedExpression.Expressions) > 1
+		operands, precedence = typedExpression.Expressions, precedenceOr
 	case *cypher.ExclusiveDisjunction:
-		return precedenceXor, len(typedExpression.Expressions) > 1
+		operands, precedence = typedExpression.Expressions, precedenceXor
 	case *cypher.Conjunction:
-		return precedenceAnd, len(typedExpression.Expressions) > 1
+		operands, precedence = typedExpression.Expressions, precedenceAnd
+	default:
+		return 0, false
 	}
 
-	return 0, false
+	switch len(operands) {
+	case 0:
+		return 0, false
+	case 1:
+		// A connective with a single operand is written as that operand alone
+		return booleanPrecedence(operands[0])
+	default:
+		return precedence, true
+	}
 }
 
 // writeOperand writes an operand of a boolean connective. A model assembled through the query builders may nest a
